@@ -22,6 +22,8 @@ def cases(seed, tier):
     sizes, R = c01.sizes_R(tier)
     out = []
     cells = c01.cell_list(tier) + [dict(target="hole", kernel="tpcn", resample="mult", clustering=False), dict(target="hole", kernel="rwm", resample="syst", clustering=False)]
+    if tier == "quick":  # the evidence needs fewer target shapes than the posterior expectations: keep the quick tier near two minutes
+        cells = [c for c in cells if c["target"] in ("corr", "bimodal", "hole") or c.get("arm") or c.get("vv") or (c["target"] == "expedge")]
     for cell in cells:
         out += E.cell_cases(cell, sizes, R, sch, "c02")
     n_log = 24 if tier == "quick" else 600
@@ -61,6 +63,7 @@ def run_rnglog(case):
         c["cfg"]["random_state"] = rs
         if case["resume"] and j == 0:
             c.update(scenario="crash_resume", save_every=1, like_fault=dict(kind="crash.process", batch=case["crash_batch"]))
+            c["cfg"]["random_state"] = 5 if case["seed"] % 2 else None  # seeded and unseeded resumed runs
         w, info = scenario.execute(c, [])
         runs.append((w, info))
     allsets = []
